@@ -398,6 +398,7 @@ class ExchangeC02(Monitor):
         self.const = const_world
         self.pre = {}
         self.asm_out = {}
+        self.floor = {}
         self.H0 = None
         self.row0 = None
 
@@ -430,6 +431,7 @@ class ExchangeC02(Monitor):
 
     def on_asm_before(self, sim, r, asm, dz, t_gap, h_gap, adiabatic):
         self.pre[asm.id] = Snap(asm)
+        sim.klog[id(asm.active_region)] = []
 
     def on_asm_after(self, sim, r, asm, dz, t_gap, h_gap, adiabatic):
         pre = self.pre.pop(asm.id)
@@ -454,10 +456,24 @@ class ExchangeC02(Monitor):
             q3 = reg._calc_duct_power(pw['duct'], nd - 1)
         else:
             q3 = np.zeros(6)
-        q_four = fourier_wall_heat(reg, T_surf, q3, pre.k_duct, nd - 1, 1) * dz
+        kd = sim.klog.get(id(reg), [])
+        k_out = kd[nd - 1] if len(kd) >= nd else pre.k_duct
+        q_four = fourier_wall_heat(reg, T_surf, q3, k_out, nd - 1, 1) * dz
+        # round-off floor: the fluxes are differences of temperatures ~ T
+        floor = 1e-12 * float(np.sum(hg * w * dz * (
+            np.abs(T_surf[nd - 1, 1]) + np.abs(t_gap))))
+        floor += 1e-12 * float(np.sum(
+            w * dz * k_out / duct_thickness(reg, nd - 1)
+            * (np.abs(T_surf[nd - 1, 1]) + np.abs(T_surf[nd - 1, 0]))))
+        self.floor[asm.id] = floor
         rr = _rel(float(np.sum(q_four - q_conv)), q_four, q_conv)
         sim.probe('c02.outer_wall_checked')
-        if rr > 1e-8:
+        if is_sixnode(reg):
+            # the six-node wall is solved after its coolant; the identity is
+            # still local to the wall
+            pass
+        if not _ok(float(np.sum(q_four - q_conv)), floor, q_four, q_conv,
+                   eps=1e-8):
             sim.violate('exchange.outer_wall', f'asm{asm.id} tick {sim.tick}',
                         f'outer-duct conduction {float(np.sum(q_four))!r} != '
                         f'convection to gap {float(np.sum(q_conv))!r} '
@@ -479,12 +495,14 @@ class ExchangeC02(Monitor):
                 sim.probe('c02.sixnode_skipped')
                 continue
             rr = _rel(out - credit, q, rows[ai])
+            fl = 2 * self.floor.get(a.id, 0.0) \
+                + 1e-12 * float(np.sum(np.abs(core.ebal['asm'][ai])))
             sim.probe('c02.exchange_checked')
             mesh_differs = not bool(np.all(np.isin(
                 reg._map['duct2gap'], (0.0, 1.0))))
             if mesh_differs:
                 sim.probe('c02.unequal_mesh')
-            if rr > 1e-8:
+            if not _ok(out - credit, fl, q, rows[ai], eps=1e-8):
                 feats = LedgerC01._feats(reg, Snap(a))
                 if mesh_differs:
                     feats.add('unequal_mesh')
@@ -498,7 +516,10 @@ class ExchangeC02(Monitor):
                                 core.coolant_gap_temp - self.gap0))
         rr = _rel(dHg - tot_credit, rows, dHg)
         sim.probe('c02.gap_checked')
-        if rr > EPS_R * 10:
+        fl = FLOOR * cp * float(np.dot(core._sc_mfr, np.abs(self.gap0))) \
+            + 2 * sum(self.floor.values()) \
+            + 1e-12 * float(np.sum(np.abs(core.ebal['asm'])))
+        if not _ok(dHg - tot_credit, fl, rows, dHg, eps=1e-8):
             sim.violate('exchange.gap_balance', f'tick {sim.tick}',
                         f'gap enthalpy rise {dHg!r} != credits '
                         f'{tot_credit!r} rel={rr:.3e}', {'gap'})
@@ -674,14 +695,35 @@ class PressureC14(Monitor):
                 # grids that physically lie inside the bundle
                 hits = self.grid_hits.get(a.id, [])
                 sim.probe('c14.grid_checked', len(zs))
-                if len(hits) != len(zs):
+                tol = 1e-8
+                # every grid is crossed by exactly one loss increment and
+                # every increment crosses at least one grid (several grids
+                # inside one step give one increment of several losses; the
+                # closed form below fixes the multiplicity)
+                owner = {}
+                for zg in zs:
+                    own = [h[0] for h in hits
+                           if h[1] - tol < zg <= h[2] + tol]
+                    owner[zg] = own
+                lost = [zg for zg in zs if not owner[zg]]
+                stray = [h[0] for h in hits
+                         if not any(h[1] - tol < zg <= h[2] + tol
+                                    for zg in zs)]
+                dbl = [zg for zg in zs if len(owner[zg]) > 1
+                       and not any(abs(zg - h[2]) <= tol or
+                                   abs(zg - h[1]) <= tol for h in hits)]
+                if lost or stray or dbl:
                     feats = {'grid_count'}
                     zp = set(float(x) for x in r.z)
                     if any(float(np.around(z, 12)) in zp for z in zs):
                         feats.add('grid_on_plane')
+                    if len(set(h[0] for zg in zs for h in hits
+                               if h[1] - tol < zg <= h[2] + tol)) < len(zs):
+                        feats.add('grids_share_a_step')
                     sim.violate('dp.grid_exactly_once', f'asm{a.id}',
-                                f'{len(zs)} grids at {zs} but {len(hits)} '
-                                f'loss increments at ticks '
+                                f'grids at {zs}: never counted {lost}, '
+                                f'counted twice {dbl}, increments without a '
+                                f'grid at ticks {stray}; increments at ticks '
                                 f'{[h[0] for h in hits]}', feats)
             if not self.const:
                 continue
